@@ -144,15 +144,13 @@ def run(ctx):
     # the server-side merge over several partitions: a real server with 3 single-replica partitions in the
     # driver's process; every merged iteration is decomposed into one iteration per partition
     norev = [] if not V.match_known("C13", {"driver": "mergesim", "rev": True, "no_count": True}) else ["-nocount-rev=false"]
-    scan_stage(ctx, zr, "merge-3part", "pebble", "local", ["-segments", "3" if q else "12", "-P", "3"] + norev, stats, samples,
+    scan_stage(ctx, zr, "merge-3part", "pebble", "local", ["-segments", "3" if q else "12", "-P", "3", "-fullmatch-count"] + norev, stats, samples,
                driver="mergesim", cfg="ZScanTraceMerge.cfg", parts=2)
     if norev:
         scan_stage(ctx, zr, "isolate-merge-nocount-rev", "pebble", "local", ["-segments", "1", "-P", "3"], stats, samples,
                    expect="C13-merge-revscan-no-count", driver="mergesim", cfg="ZScanTraceMerge.cfg", parts=1)
-    scan_stage(ctx, zr, "isolate-fullscan-match", "pebble", "local", ["-segments", "1", "-P", "3", "-fullmatch-count"] + norev, stats, samples,
-               expect="C13-fullscan-match-ends-early", driver="mergesim", cfg="ZScanTraceMerge.cfg", parts=1)
     if not q:
-        scan_stage(ctx, zr, "merge-5part", "pebble", "local", ["-segments", "4", "-P", "5"] + norev, stats, samples,
+        scan_stage(ctx, zr, "merge-5part", "pebble", "local", ["-segments", "4", "-P", "5", "-fullmatch-count"] + norev, stats, samples,
                    driver="mergesim", cfg="ZScanTraceMerge.cfg", parts=2)
     # COUNT around the store's batch limit (5 000) on a set of 5 203 members, forwards and in reverse - formerly
     # the isolate stage of C13-count-above-batch-limit (fixed 63306fe), now strict
